@@ -133,7 +133,7 @@ var (
 	cmdPool        = []string{"add", "rm", "list", "ls", "co", "ad", "remove", "a", "commit", "é"}
 	nsPool         = []string{"a", "ns", "a.b", "db", "x-y"}
 	stringPool     = []string{"", "x", "hello world", "a=b", "=lead", "-dash", "--dd", "é中", "k:v", "\"q\"", "\"unterminated", " lead", "trail ", "a,b", "--", "-", "---x", "-5", "0", "véry long value with spaces and = signs", "\\back", "tab\tx", "new\nline",
-		"'", "''", "'quoted'", "snake_case_value", "dir/my_file", "trailing\\", "C:\\data\\", "UPPER", " ", "%d %s 100%", "true", "no-x", "007", "${HOME}/data", "$HOME", "${}", "${x}-${y}.tar.gz", "help"}
+		"'", "''", "'quoted'", "snake_case_value", "dir/my_file", "trailing\\", "C:\\data\\", "UPPER", " ", "%d %s 100%", "true", "no-x", "007", "${HOME}/data", "$HOME", "${}", "${x}-${y}.tar.gz", "help", "caf\xe9.txt", "\xff\xfe", "a\xc3", "=\xe9"}
 )
 
 type declGen struct {
@@ -239,7 +239,7 @@ func genValidText(t *rapid.T, k Kind, base int) string {
 		}
 		return rapid.SampledFrom([]string{"0", "1.5", "-2.25", "1e3", ".5", "-0", "3.4028235e38", "1e-45", "+1", "Inf", "-inf", "NaN", "0x1p-2", "123456789.125"}).Draw(t, "float")
 	case KDuration:
-		return rapid.SampledFrom([]string{"0", "1s", "-5m", "1h30m", "100ms", "1.5h", "2562047h", "1ns", "+3s"}).Draw(t, "dur")
+		return rapid.SampledFrom([]string{"0", "1s", "-5m", "1h30m", "100ms", "1.5h", "2562047h", "1ns", "+3s", "-.5s", "-.25h", ".5s"}).Draw(t, "dur")
 	}
 	if _, ok := intBits[k]; ok {
 		min, max := IntLimits(k)
@@ -1161,7 +1161,7 @@ func (g *argvGen) unknownShort() string {
 			cands = append(cands, o.Short, flipCase(o.Short))
 		}
 	}
-	cands = append(cands, "Z", "z", "ö", "9", "?", "%", "H")
+	cands = append(cands, "Z", "z", "ö", "9", "?", "%", "H", "€", "日", "😀")
 	sortStrings(cands)
 	var ok []string
 	for _, c := range cands {
@@ -1222,6 +1222,11 @@ func (g *argvGen) item() {
 	case 5:
 		g.emitUnknown()
 	case 6:
+		if pct(t, "junkWordOfLength", 30) {
+			// a plain word of every length up to 140 (fixed-size buffers come in all sizes)
+			g.out = append(g.out, strings.Repeat(rapid.SampledFrom([]string{"x", "é", "中"}).Draw(t, "junkRune"), 1+uniformInt(t, "junkLen", 140)))
+			return
+		}
 		g.out = append(g.out, rapid.SampledFrom([]string{"", "-", "--", "---x", "-=", "--=v", "-=v", "--=", "- ", "-\xff", "--\xfe=1", strings.Repeat("A", 5000), "-" + strings.Repeat("v", 40)}).Draw(t, "junk"))
 	case 7:
 		if len(g.used) > 0 {
